@@ -24,7 +24,8 @@ KWAGRS_TEMPLATE = "{% for key, value in kwargs.items() %}" \
 
 keywords_set = set(keyword.kwlist)
 builtins_set = set(__builtins__.keys())
-other_common_names_set = {'datetime', 'time', 'date', 'defaultdict', 'schema'}
+# ('self': attrs generates `def __init__(self, <fields>)`, a field with that name is a duplicate argument)
+other_common_names_set = {'datetime', 'time', 'date', 'defaultdict', 'schema', 'self'}
 # Names that generated modules may import: a field or class with such a name would rebind the import
 imported_names_set = {
     'attr', 'dataclass', 'field', 'optional', 'convert_strings', 'ClassType',
